@@ -76,15 +76,30 @@ def run(ctx):
     spec = {dc.case_key(c): o for c, o in zip(allcases, outs)}
     cache = {}
 
+    def wrap_distance(case):
+        """the same distance through the multivariate matrix convenience wrapper (every option is forwarded by it)"""
+        import numpy as np
+        from dtaidistance import dtw_ndim
+        nd = case.get("ndim", 1)
+        kw = dc.py_kwargs(case)
+        a_ = np.array(case["s1"], dtype=float).reshape((-1, nd))
+        b_ = np.array(case["s2"], dtype=float).reshape((-1, nd))
+        try:
+            return impl.canon(dtw_ndim.distance_matrix_fast([a_, b_], compact=True, parallel=False, **kw)[0])
+        except BaseException as e:
+            if isinstance(e, (KeyboardInterrupt, SystemExit)):
+                raise
+            return impl.exc_name(e)
+
     def dist(case, fast):
         key = (dc.case_key(case), fast)
         if key not in cache:
-            cache[key] = impl.py_distance(case, "numpy", fast=fast)
+            cache[key] = wrap_distance(case) if fast == "wrap" else impl.py_distance(case, "numpy", fast=fast)
         return cache[key]
 
-    for law, a, b, rel in checks:
-        for fast in (False, True):
-            eng = "C" if fast else "python"
+    for ci_, (law, a, b, rel) in enumerate(checks):
+        for fast in ((False, True, "wrap") if ci_ % 3 == 0 else (False, True)):
+            eng = "dtw_ndim.distance_matrix_fast" if fast == "wrap" else ("C" if fast else "python")
             res.evaluations += 1
             da = dist(a, fast)
             sa = impl.canon(dc.expected_from_internal(a, spec[dc.case_key(a)]["spec"]))
